@@ -543,6 +543,23 @@ def enumerate_shapes(max_states, vary_headed=False):
     return out
 
 
+def big_serial_shapes():
+    """Shapes whose SERIAL_BITS reach / pass 256 (the old `Short` limit of `ArgsT::SERIAL_BITS`,
+    repaired in /repo) at the smallest compile cost found: an orthogonal root (ACTIVE_BITS add up)
+    over 17 chains of two-state composite regions.  188 / 190 states, SERIAL_BITS 256 / 259;
+    about 11 s each at -O0."""
+    def chain(d):
+        s = L()
+        for k in range(d):
+            s = C(s, L(), strategy=STRATEGIES[k % len(STRATEGIES)])
+        return s
+    a = O(*[chain(5) for _ in range(17)])
+    b = O(*([chain(5) for _ in range(16)] + [chain(6)]), headed=False)
+    for s in (a, b):
+        assert s.valid_root() and s.serial_bits() >= 256, s.counts()
+    return [a, b]
+
+
 def generate(seed, count, max_states=32, max_depth=5, max_width=9, with_corpus=True):
     """Corpus first, then seeded random shapes (no duplicates) up to `count` in total."""
     rng = SplitMix(seed)
